@@ -128,6 +128,15 @@ def path_to_sid(path: str | os.Pathlike[str], config: Optional[str]) -> Sid | No
 
     new_sid = Sid(from_factory=True)
     new_sid._init(string=resolved_sid, type=_type, fields=fields)
+
+    # The path must be the one that the resolved Sid owns.
+    # (Template literals like the extension dot are not escaped in the regex, a trailing separator
+    # leaves an empty last value, and the end anchor accepts a trailing newline.)
+    owned = new_sid.path(config)
+    if owned is None or owned.as_posix() != str(path).replace(os.sep, "/"):
+        info(f'Path "{path}" did resolve to {new_sid.uri}, whose path is "{owned}"')
+        return None
+
     return new_sid
 
 
